@@ -47,7 +47,7 @@ type supEntry struct {
 }
 
 type hsAnswer struct {
-	kind string // sup ready authn chal succ err setks void prep
+	kind string // sup ready authn chal succ err setks void prep unprep
 	sup  []supEntry
 	b    []byte // class / token (nil = null) / prepared id
 	n    int    // bind columns of prep
@@ -104,6 +104,8 @@ func (s *hsScenario) String() string {
 			fmt.Fprintf(&sb, " %s %s", a.kind, optb(a.b))
 		case "prep":
 			fmt.Fprintf(&sb, " prep %s %d", vh.Hex(a.b), a.n)
+		case "unprep":
+			fmt.Fprintf(&sb, " unprep %s", vh.Hex(a.b))
 		default:
 			sb.WriteString(" " + a.kind)
 		}
@@ -167,6 +169,8 @@ func parseHsScenario(t *toks) *hsScenario {
 		case "prep":
 			a.b = t.hex()
 			a.n = int(t.int())
+		case "unprep":
+			a.b = t.hex()
 		case "ready", "err", "setks", "void":
 		default:
 			panic("bad-op")
@@ -302,6 +306,9 @@ func (a *hsAnswer) encode(v int) (op byte, body []byte) {
 		return 0x10, lbytes(a.b)
 	case "err":
 		return 0x00, append(be32(0), lstr([]byte("scripted error"))...)
+	case "unprep":
+		// ERROR 0x2500 Unprepared: <message> <short bytes id>
+		return 0x00, append(append(be32(0x2500), lstr([]byte("scripted unprepared"))...), lstr(a.b)...)
 	case "setks":
 		return 0x08, append(be32(3), lstr([]byte("ks"))...)
 	case "void":
@@ -758,14 +765,30 @@ func (g *gen) genHs() *hsScenario {
 			sc.auth = append(sc.auth, hsDirective{kind: "f", data: g.token(), next: true})
 		}
 	}
-	// the plan and its answers
-	nact := g.r.Intn(5)
+	// the plan and its answers; the generator follows what an honest peer would know: which (keyspace, statement)
+	// pairs it has prepared on this connection's session, under which id
+	nact := g.r.Intn(6)
 	hasReg := false
-	for i := 0; i < nact; i++ {
-		switch g.r.Intn(4) {
+	type prepInfo struct {
+		id []byte
+		n  int
+	}
+	known := map[string]prepInfo{}
+	curKs := ""
+	var stmts []hsAction // exec actions so far, for repetition
+	var kss [][]byte
+	stuck := false
+	for i := 0; i < nact && !stuck; i++ {
+		switch g.r.Intn(5) {
 		case 0:
-			sc.plan = append(sc.plan, hsAction{kind: "use", ks: g.ident()})
+			ks := g.ident()
+			if len(kss) > 0 && g.r.Intn(3) == 0 {
+				ks = kss[g.r.Intn(len(kss))] // back to an earlier keyspace: its statements are known again
+			}
+			kss = append(kss, ks)
+			sc.plan = append(sc.plan, hsAction{kind: "use", ks: ks})
 			sc.answers = append(sc.answers, hsAnswer{kind: "setks"})
+			curKs = string(ks)
 		case 1:
 			if hasReg {
 				continue
@@ -779,7 +802,18 @@ func (g *gen) genHs() *hsScenario {
 		default:
 			nv := g.r.Intn(4)
 			a := hsAction{kind: "exec", cons: g.r.Intn(11)}
-			a.stmt = []byte(fmt.Sprintf("%s t%d_%s WHERE x = %d", []string{"SELECT * FROM", "select a from", "UPDATE", "DELETE FROM", "INSERT INTO"}[g.r.Intn(5)], i, g.ident(), g.r.Intn(1000)))
+			if len(stmts) > 0 && g.r.Intn(5) < 2 {
+				// an earlier statement again (the prepared-statement cache): same text, new consistency and values,
+				// now and then a different NUMBER of values
+				prev := stmts[g.r.Intn(len(stmts))]
+				a.stmt = prev.stmt
+				nv = len(prev.vals)
+				if g.r.Intn(10) == 0 {
+					nv = g.r.Intn(4)
+				}
+			} else {
+				a.stmt = []byte(fmt.Sprintf("%s t%d_%s WHERE x = %d", []string{"SELECT * FROM", "select a from", "UPDATE", "DELETE FROM", "INSERT INTO"}[g.r.Intn(5)], i, g.ident(), g.r.Intn(1000)))
+			}
 			for j := 0; j < nv; j++ {
 				if g.r.Intn(4) == 0 {
 					a.vals = append(a.vals, nil)
@@ -788,23 +822,55 @@ func (g *gen) genHs() *hsScenario {
 				}
 			}
 			sc.plan = append(sc.plan, a)
-			id := g.bytesN([]int{1, 2, 16, 16, 16, 32, 255, 300}[g.r.Intn(8)])
-			ncols := nv
-			if g.r.Intn(12) == 0 {
-				ncols = nv + 1
-			}
-			sc.answers = append(sc.answers, hsAnswer{kind: "prep", b: id, n: ncols})
-			if g.r.Intn(8) == 0 {
-				sc.answers = append(sc.answers, hsAnswer{kind: "setks"})
-			} else {
-				sc.answers = append(sc.answers, hsAnswer{kind: "void"})
+			stmts = append(stmts, a)
+			key := curKs + "\x00" + string(a.stmt)
+			// executeQuery, possibly several times around the UNPREPARED arm
+			for round := 0; ; round++ {
+				info, ok := known[key]
+				if !ok {
+					id := g.bytesN([]int{1, 2, 16, 16, 16, 32, 255, 300}[g.r.Intn(8)])
+					ncols := nv
+					if g.r.Intn(12) == 0 {
+						ncols = nv + 1
+					}
+					sc.answers = append(sc.answers, hsAnswer{kind: "prep", b: id, n: ncols})
+					info = prepInfo{id, ncols}
+					known[key] = info
+				}
+				if info.n != nv {
+					stuck = true // refused locally: no further request
+					break
+				}
+				if round < 3 && g.r.Intn(5) == 0 {
+					// the server has lost the statement (or says so about another id)
+					uid := info.id
+					switch g.r.Intn(6) {
+					case 0:
+						uid = g.bytesN(len(info.id))
+					case 1:
+						uid = append(append([]byte{}, info.id...), 0)
+					}
+					sc.answers = append(sc.answers, hsAnswer{kind: "unprep", b: uid})
+					if bytes.Equal(uid, info.id) {
+						delete(known, key)
+					}
+					continue
+				}
+				if g.r.Intn(8) == 0 {
+					sc.answers = append(sc.answers, hsAnswer{kind: "setks"})
+				} else {
+					sc.answers = append(sc.answers, hsAnswer{kind: "void"})
+				}
+				break
 			}
 		}
 	}
 	// deviations of the peer
 	if g.r.Intn(6) == 0 {
 		i := g.r.Intn(len(sc.answers))
-		switch g.r.Intn(6) {
+		switch g.r.Intn(7) {
+		case 6:
+			sc.answers[i] = hsAnswer{kind: "unprep", b: g.bytesN(1 + g.r.Intn(16))}
 		case 0:
 			sc.answers[i] = hsAnswer{kind: "err"}
 		case 1:
@@ -840,7 +906,25 @@ func (g *gen) hsScenarioCase(idx int) {
 		}
 	}
 	spec := hsSpecAnswer(sc, &res)
-	class := fmt.Sprintf("hs/v%d/%s/authframes%d/comp%s", sc.v, res.status, nauth, b2s(sc.comp != nil))
+	nunprep, nprep, nexec := 0, 0, 0
+	for _, a := range sc.answers {
+		if a.kind == "unprep" {
+			nunprep++
+		}
+	}
+	for _, f := range res.frames {
+		switch frameOp(sc.v, f) {
+		case 0x09:
+			nprep++
+		case 0x0A:
+			nexec++
+		}
+	}
+	cached := "0"
+	if nexec > nprep {
+		cached = "1" // some EXECUTE went out with an id from the cache
+	}
+	class := fmt.Sprintf("hs/v%d/%s/authframes%d/comp%s/unprep%d/cached%s", sc.v, res.status, nauth, b2s(sc.comp != nil), nunprep, cached)
 	if strings.HasPrefix(spec, "inexpressible") {
 		class = "hs/v1/inexpressible-auth-response"
 	}
